@@ -334,6 +334,16 @@ theorem walk_ghost_start (g : PMap) (start stop : List Key) (e e' : Key)
     · subst h; rw [he'] at hps; cases hps
     · exact hns h
 
+/-- `heads_within_depth`: every start candidate chosen by `_find_possible_heads`
+lies at most `depth` child steps above one of the tips -/
+theorem heads_within_depth (pm : PMap) (tips : List Key) (depth : Nat) (h : Key)
+    (hh : h ∈ findPossibleHeads pm tips depth) :
+    ∃ n, n ≤ depth ∧ ∃ t ∈ tips, ChildSteps pm n t h := by
+  unfold findPossibleHeads at hh
+  rcases headsLoop_within pm depth [] (dedup tips) (dedup tips) h (mem_dedup.mp hh) with h1 | ⟨n, hn, r, hr, hs⟩
+  · cases h1
+  · exact ⟨n, hn, r, mem_dedup.mp hr, hs⟩
+
 /-! ### wire form -/
 
 /-- `sep.join(l).split(sep)`: `l` itself, except that the empty list comes back
@@ -397,5 +407,6 @@ example : searchResultFromParentMap [(1, [0])] [0] = ⟨[1], [], 2⟩ ∧
 example : ∀ x ∈ [[114, 52], [114, 51]], SP ∉ x ∧ NL ∉ (x : Bytes) := by decide
 example : parseRecipe (serialise ⟨[[114, 52]], [], 3⟩) = some ⟨[[114, 52]], [[]], 3⟩ := by decide
 example : parentsOf exG 9 = none ∧ parentsOf exG 7 = none := by decide
+example : findPossibleHeads exPM [1] 1 = [3, 2] ∧ findPossibleHeads exPM [1] 2 = [4] := by decide
 
 end BreezyVerif.C33
